@@ -39,6 +39,7 @@ def run(ck, fb):
     r18e(ck, fb)
     r18b(ck, fb)
     r18c(ck, fb)
+    r18f(ck, fb)
     r18d(ck, fb)
 
 
@@ -349,3 +350,58 @@ def r18e(ck, fb):
     n2 = fb.bodies.get(PV + 'NamespacePrivilegeGroup::is_all')
     if n2 is not None:
         ck.require(len(n2.calls(r'PrivilegeGroup::<T>::is_all$')) >= 1, 'R18e', 'NamespacePrivilegeGroup::is_all:delegates', n2.where(), 'NamespacePrivilegeGroup::is_all does not delegate')
+
+
+def r18f(ck, fb):
+    ck.rule('R18f', 'every listing producer honours the privilege it is handed: a function that receives a query parameter carrying '
+                    'namespace_privilege (ServiceQueryParam / ConfigQueryParam) and builds result rows (Vec::push) either calls '
+                    'check_permission itself, or delegates to a function that does (passing the parameter on), or is only called from sites '
+                    'guarded by check_permission(namespace) == true. Sibling cross-check: the config and service indexes do, so must every other '
+                    'consumer of the parameter')
+    PT = re.compile(r'service_index::ServiceQueryParam|config_index::ConfigQueryParam')
+    CHK = r'NamespacePrivilegeGroup::check_permission$|NamespacePrivilegeGroup::check_option_value_permission$'
+    takers = {}
+    for n, b in fb.bodies.items():
+        if b.parent or '::tests::' in n or n.startswith('<') or '_serde' in n:
+            continue
+        if any(PT.search(b.local_ty(i) or '') for i in range(1, b.argc + 1)):
+            takers[n] = b
+    producers = {n: b for n, b in takers.items() if b.calls(r'Vec::<.*>::push$')}
+    ck.floor('R18f', 'listing producers that receive the privilege', len(producers), 4)
+
+    def callers_guarded(name):
+        sites = []
+        for n, b in fb.bodies.items():
+            for x in [b] + (fb.tree(n)[1:] if not b.parent else []):
+                for s in x.calls(re.escape(name) + '$'):
+                    sites.append((x, s))
+        if not sites:
+            return False
+        return all(any(a[0] == 'call' and re.search(CHK, a[1] or '') and a[2] is True for a in cfg.guard_atoms(x, s.bb)) for (x, s) in sites)
+    memo = {}
+
+    def ok(name, depth=0):
+        if name in memo:
+            return memo[name]
+        b = takers.get(name)
+        if b is None or depth > 4:
+            return False
+        memo[name] = False
+        r = False
+        if any(x.calls(CHK) for x in util.region(fb, b)):
+            r = True
+        elif callers_guarded(name):
+            r = True
+        else:
+            for s in b.sites:
+                tgt = s.resolved or s.callee
+                if tgt in takers and tgt != name and ok(tgt, depth + 1):
+                    r = True
+        memo[name] = r
+        return r
+    for n, b in sorted(producers.items()):
+        ck.analysed(b)
+        ck.require(ok(n), 'R18f', 'producer:%s' % n, b.where(),
+                   '%s builds a listing from a query that carries the caller\'s namespace privilege but never consults it (and is not called under a '
+                   'per-namespace check): with the namespace omitted the handler-level check lets the request through and the listing returns '
+                   'rows of every namespace' % n, 'privilege consulted')
